@@ -155,6 +155,18 @@ def gen(args):
     kind, row, seed = args
     rng = random.Random(seed)
     none = {"__none__": True, "meta": {}}
+    if kind == "p1-long":
+        # a cell four times longer along c than along a, X-H bonds along c, stacked three times along c: the supercell is
+        # twelve times longer along c than along a
+        g1 = rng.randint(20, 60)
+        gram = [[g1, 0, 0], [0, rng.randint(g1, 2 * g1), 0], [0, 0, 16 * g1]]
+        rec = xtal.gen_molecular(rng, row, nmols=1, sizes=(3, 4), n=48, gram_fn=lambda r: gram, h_axis=2, vol_per_atom=rng.choice([30.0, 40.0]),
+                                 max_tries=80)
+        if rec is None or not any(s["z"] == 1 for s in rec["asym"]):
+            return none
+        rec.update(k="p1", call=rng.choice(["as_P1_supercell", "to_translational_symmetry"]), size=rng.choice([[1, 1, 3], [1, 2, 3], [1, 1, 2]]),
+                   route="params", src="long cell stacked along its long axis")
+        return rec
     if kind == "p1":
         if rng.random() < 0.6 and len(row["ops"]) <= 48:
             rec = xtal.gen_molecular(rng, row, nmols=rng.choice([1, 2]), sizes=(2, 3), n=24 if len(row["ops"]) <= 8 else 48)
@@ -222,6 +234,8 @@ def run(ctx):
     rng = ctx.rng
     sel = rng.sample(rows, ctx.pick(60, 530))
     jobs = [("p1", r, ctx.seed * 31337 + i * 17 + k) for i, r in enumerate(sel) for k in range(ctx.pick(2, 10))]
+    low = [r for r in rows if r["number"] <= 74 and len(r["ops"]) <= 8]
+    jobs += [("p1-long", low[(j * 37 + ctx.seed) % len(low)], ctx.seed * 2741 + 70000 + j) for j in range(ctx.pick(40, 800))]
     trig_rows = [r for r in rows if r["number"] in RGROUPS and r["choice"] == "H"]
     jobs += [("trig", r, ctx.seed * 4241 + i * 7 + k) for i, r in enumerate(trig_rows) for k in range(ctx.pick(12, 600))]
     recs = [x for x in pool_map(gen, jobs) if "__none__" not in x]
